@@ -352,6 +352,25 @@ fn judge_v2(s: &str, obs: &mut Obs, what: &str) -> Result<Option<Machine>, Failu
         );
     }
     obs.add("peak_kib_sum", (peak / 1024) as u64);
+    // a parse leaves nothing behind: a known-good string still parses right afterwards on this thread
+    {
+        static GOOD: std::sync::OnceLock<(String, Machine)> = std::sync::OnceLock::new();
+        let (gs, gm) = GOOD.get_or_init(|| {
+            let mut t: enum_map::EnumMap<maybenot::event::Event, Vec<maybenot::state::Trans>> = Default::default();
+            t[maybenot::event::Event::NormalSent] = vec![maybenot::state::Trans(0, 1.0)];
+            let m = Machine::new(7, 0.5, 9, 0.25, vec![maybenot::state::State::new(t)]).expect("reference machine");
+            (m.serialize(), m)
+        });
+        match Machine::from_str(gs) {
+            Ok(m2) if m2.serialize() == gm.serialize() => {}
+            other => {
+                return fail(
+                    "valid-string-not-parsed-after-another-parse",
+                    format!("{what}: after parsing a string of {} bytes (result: {}), the reference machine string gives {:?}", s.len(), if r.is_ok() { "accepted" } else { "rejected" }, other.map(|_| "a different machine").map_err(|e| e.to_string())),
+                )
+            }
+        }
+    }
     match r {
         Err(_) => {
             obs.hit("rejected");
